@@ -65,7 +65,6 @@ pub fn make_single_module(operation: &Operation, spec: &HirSpec, cfg: &Config) -
     ];
     let request_structs = build_request_struct(operation, spec, &cfg, &mut imports);
     let struct_name = request_structs[0].name.clone();
-    let response = operation.ret.to_rust_type();
     let method = Ident(operation.method.clone());
     let url = make_url(&operation);
     let builder_methods = build_request_struct_builder_methods(&operation)
@@ -73,11 +72,7 @@ pub fn make_single_module(operation: &Operation, spec: &HirSpec, cfg: &Config) -
         .map(|s| s.to_rust_code());
 
     let assign_inputs = assign_inputs_to_request(&operation.parameters);
-    let output = if operation.ret.is_primitive() {
-        quote! { #response }
-    } else {
-        quote! { crate::model::#response }
-    };
+    let output = qualified_result_type(&operation.ret);
 
     let impl_block = quote! {
         impl FluentRequest<'_, #struct_name> {
@@ -113,6 +108,26 @@ pub fn make_single_module(operation: &Operation, spec: &HirSpec, cfg: &Config) -
         imports,
         items,
         modules: Vec::new(),
+    }
+}
+
+/// The result type as written in a request module: generated models live in `crate::model`, also when they are
+/// the element type of a `Vec` or the value type of a map; every other type is spelled as it is.
+fn qualified_result_type(ty: &Ty) -> TokenStream {
+    match ty {
+        Ty::Model(_) => {
+            let t = ty.to_rust_type();
+            quote! { crate::model::#t }
+        }
+        Ty::Array(inner) => {
+            let inner = qualified_result_type(inner);
+            quote! { Vec<#inner> }
+        }
+        Ty::HashMap(inner) => {
+            let inner = qualified_result_type(inner);
+            quote! { std::collections::HashMap<String, #inner> }
+        }
+        _ => ty.to_rust_type(),
     }
 }
 
